@@ -5,7 +5,8 @@
 (*                                                                         *)
 (*   parse   AppendEscape, QuoteEntity, Printable, IsWhitespace, IsNewline, *)
 (*           Copy, NewIndenter/Indenter.Write/Indent                       *)
-(*   js      AsIdentifierName, AsDecimalLiteral                            *)
+(*   js      AsIdentifierName, AsDecimalLiteral, IsIdentifierStart /      *)
+(*           Continue / End                                                *)
 (*   css     IsIdent, IsURLUnquoted                                        *)
 (*   strconv LenUint  (LenInt, AppendInt, ParseInt, ParseUint are covered  *)
 (*           by spec/strconv/Numeric.tla, property C14)                    *)
@@ -227,6 +228,21 @@ IsIdentifierName(s) == IsIdentifierNameCP(CodePoints(s))
 JsIdDeterminedCP(cps) == \A i \in 1..Len(cps) : KnownCP(cps[i]) /\ (LET e == UEsc(cps, i) IN e.n > 0 => KnownCP(e.v))
 JsIdDetermined(s) == JsIdDeterminedCP(CodePoints(s))
 
+(* ============================== js.IsIdentifierStart / Continue / End ============================== *)
+(* "IsIdentifierStart returns true if the byte-slice start is the start of an identifier", "... is a continuation of   *)
+(* an identifier", "IsIdentifierEnd returns true if the byte-slice end is a start or continuation of an identifier":   *)
+(* the first (last) code point is an IdentifierStart (IdentifierPart) character of 11.6, or the backslash that begins  *)
+(* a unicode escape.  An empty argument has no such character.  Determined when that code point is one the             *)
+(* specification knows (for End: when the whole argument is well-formed UTF-8, since "the end" is then unambiguous).   *)
+FirstCP(s) == LET c == CodePoints(s) IN IF Len(c) = 0 THEN -1 ELSE c[1]
+LastCP(s)  == LET c == CodePoints(s) IN IF Len(c) = 0 THEN -1 ELSE c[Len(c)]
+WellFormed(s) == \A i \in DOMAIN CodePoints(s) : CodePoints(s)[i] >= 0
+IdStartOK(s) == LET c == FirstCP(s) IN StartChar(c) \/ c = 92
+IdContOK(s)  == LET c == FirstCP(s) IN PartChar(c) \/ c = 92
+IdEndOK(s)   == LET c == LastCP(s) IN PartChar(c) \/ c = 92
+FirstDetermined(s) == KnownCP(FirstCP(s)) \/ FirstCP(s) = -1
+LastDetermined(s)  == WellFormed(s) /\ (KnownCP(LastCP(s)) \/ LastCP(s) = -1)
+
 (* ============================== js.AsDecimalLiteral ============================== *)
 (* "AsDecimalLiteral returns true if a valid decimal literal is given."  ECMAScript 2020, 11.8.3:                      *)
 (*    DecimalLiteral :: DecimalIntegerLiteral . DecimalDigits_opt ExponentPart_opt                                    *)
@@ -352,6 +368,9 @@ Indent(r)         == Fam("indent") /\ r = IndentBy /\ UNCHANGED h2vars
 WriteCounts(rets, lens, errs) == Fam("indent") /\ WriteCountsOK(rets, lens, errs) /\ UNCHANGED h2vars
 
 AsIdentifierName(r) == Fam("js") /\ (JsIdDetermined(inp) => r = IsIdentifierName(inp)) /\ UNCHANGED h2vars
+IsIdentifierStart(r)    == Fam("js") /\ (FirstDetermined(inp) => r = IdStartOK(inp)) /\ UNCHANGED h2vars
+IsIdentifierContinue(r) == Fam("js") /\ (FirstDetermined(inp) => r = IdContOK(inp)) /\ UNCHANGED h2vars
+IsIdentifierEnd(r)      == Fam("js") /\ (LastDetermined(inp) => r = IdEndOK(inp)) /\ UNCHANGED h2vars
 AsDecimalLiteral(r) == Fam("js") /\ (JsNumDetermined(inp) => r = IsDecimalLiteral(inp)) /\ UNCHANGED h2vars
 IsIdent(r)          == Fam("css") /\ (CssIdentDetermined(inp) => r = CssIsIdent(inp)) /\ UNCHANGED h2vars
 IsURLUnquoted(r)    == Fam("css") /\ (CssUrlDetermined(inp) => r = CssIsUrl(inp)) /\ UNCHANGED h2vars
